@@ -23,4 +23,40 @@ CHECKS = {
         "trusted_base": TB_COMMON,
         "assumptions": ["element comparisons behave like PartialOrd on f64/f32/i32/i64 (model instance NumXQ / NumZ)"],
     },
+    "C01": {
+        "cmd": "c01",
+        "technique": "Coq proof over exact rationals (lookup correctness by induction on the search + field/nra for the line) + exact-arithmetic correspondence of the Gallina model with the Rust code",
+        "strength": "full over Q (every finite float is rational); float rounding clause validated (8 eps) on f64/f32 runs; one open known finding: intermediate overflow (S1)",
+        "text": "coq/props/C01.v: for every strictly increasing rational axis, data and in-range query the model returns, lane by lane, the straight line through the two bracketing points (hence knots reproduced, result inside the hull), and for every element type the result is calc_frac through one bracket for all lanes. The model is tied to the Rust code by running the crate's own generic code at exact rationals on generated scenarios and comparing exactly inside Coq; f64/f32 runs are compared with the exact result within 8 eps of the larger bracketing value.",
+        "design_ref": "DESIGN.md section 3, C01",
+        "trusted_base": TB_COMMON,
+        "assumptions": ["float inputs within 2^-60..2^60 (no intermediate overflow); the overflow regime is the open known finding S1-overflow"],
+    },
+    "C04": {
+        "cmd": "c04",
+        "technique": "Coq proof over exact rationals (field identities for the blend, nodes, grid lines, transposition; lookup theorem for the cell) + exact correspondence",
+        "strength": "full over Q; float clause validated (16 eps); open known finding S1 (overflow)",
+        "text": "coq/props/C04.v: inside the grid the model returns for every lane the bilinear blend of the four values of one cell containing the query; nodes, grid lines and transposition are field identities; for every element type the four corners read are those of the cell the two lookups chose. Tied to the code by exact-rational runs of the crate (dynamic and static dims, and transposed) compared in Coq, f64/f32 within 16 eps.",
+        "design_ref": "DESIGN.md section 3, C04",
+        "trusted_base": TB_COMMON,
+        "assumptions": ["float inputs within 2^-60..2^60; overflow regime is the open known finding S1-overflow"],
+    },
+    "C11": {
+        "cmd": "c11",
+        "technique": "Coq proof (invariant of the binary search by induction on fuel, uniqueness of the bracket from order laws, exact bound on the O(1) guess) + index-exact correspondence incl. bounded-exhaustive (n, guess, rank) sweep",
+        "strength": "full for exact rationals, extended rationals (+-inf queries) and integers: Ok i, bracket, never the last index, never a panic; for binary floats the result is proved independent of the guess, the no-panic clause (guess within the vector after rounding) is validated adversarially, not proved",
+        "text": "coq/props/C11.v: for any element type with order laws on its non-NaN elements, any strictly increasing axis of length >= 2, any non-NaN query and any admissible guess, the lookup returns Ok i with i <= n-2 and the bracket (0 / n-2 when clamped); the bracket is unique, so the result does not depend on the guess or its rounding; the guess hypothesis is discharged for Q, Z and extended Q. Tied to the code by f64/f32/i32/i64/exact-rational runs against a linear scan and against the model evaluated in Coq.",
+        "design_ref": "DESIGN.md section 3, C11",
+        "trusted_base": TB_COMMON,
+        "assumptions": ["for f64/f32 the rounded guess stays within the vector (property's hypotheses: finite span and quotient); validated on every generated axis through the hook, proved only for exact arithmetic"],
+    },
+    "C20": {
+        "cmd": "c20",
+        "technique": "law-free Coq proof (result is a term mentioning only the bracketing rows/knots) + order-law proof that the bracket is stable under moves of other knots + bitwise/exact differential runs with NaN/inf poison",
+        "strength": "full: holds for any element type and operations, hence for IEEE floats with NaN and infinities bit for bit",
+        "text": "coq/props/C20.v: two inputs whose lookups return the same bracket and that agree on the two (four) bracketing points give Leibniz-equal Linear (Bilinear) results for every lane, nothing assumed about the number type; moving non-bracketing knots of a strictly increasing axis keeps the bracket. Tied to the code by pairs of scenarios with every non-bracketing value poisoned (NaN, +-inf) and knots moved, compared bitwise at f64 and exactly at extended rationals, the latter also against the model in Coq.",
+        "design_ref": "DESIGN.md section 3, C20",
+        "trusted_base": TB_COMMON,
+        "assumptions": [],
+    },
 }
